@@ -218,8 +218,10 @@ func (c *Ctx) verify() (err error) {
 			c.noteOnce(fmt.Sprintf("ghost statement at `%s` was not reached (the function has abstracted loops)", g.Anchor))
 			continue
 		}
+		// (empty path: the state `s` has been run to the end of the first path, which may be an infeasible one - with
+		// its assumptions `false` would be provable and the unreached anchor would go unnoticed)
 		c.Obls = append(c.Obls, &Obligation{Name: fmt.Sprintf("%s/ghost-anchor@%s", c.Key, sanitize(g.Anchor)), Kind: "ghost-anchor", Func: c.Key,
-			Desc: "the ghost statement anchored at `" + g.Anchor + "` is reached on at least one path: " + g.Src, Pos: fmt.Sprintf("%s:%d", g.File, g.Line), Path: s.Path, Goal: "false"})
+			Desc: "the ghost statement anchored at `" + g.Anchor + "` is reached on at least one path: " + g.Src, Pos: fmt.Sprintf("%s:%d", g.File, g.Line), Path: nil, Goal: "false"})
 	}
 	return nil
 }
@@ -1956,6 +1958,18 @@ func (s *State) modTargets(env *SpecEnv, m string) (out []modTarget, heap bool) 
 	if id, ok := ex.(*EIdent); ok {
 		if _, isGhost := s.Ghost[id.Name]; isGhost {
 			return nil, false
+		}
+		// a captured variable named in the modifies clause of a closure: its box
+		if !all && !star {
+			top := s.topFrame()
+			for _, fv := range top.Fn.FreeVars {
+				if fv.Name() == id.Name {
+					if l, ok := top.Vals[fv].(*Loc); ok {
+						locComps(l, false)
+						return out, false
+					}
+				}
+			}
 		}
 	}
 	if u, ok := ex.(*EUn); ok && u.Op == "*" {
